@@ -96,6 +96,18 @@ def barrierWaitMap (rc : Int) : Out :=
     key_delete/key_set/once): nothing returned on 0, abort otherwise -/
 def mustZero (rc : Int) : Out := if rc ≠ 0 then .abort else .ret 0
 
+/-! ## attributes handed to the init calls (non-NDEBUG build) -/
+
+/-- thread.c `uv_rwlock_init`: `pthread_rwlock_init(rwlock, NULL)` — no attribute object, i.e. the
+    platform's default kind (`none` = NULL attr) -/
+def rwlockInitKind : Option Nat := none
+/-- thread.c:318-340 `uv_mutex_init`: `#if defined(NDEBUG) || !defined(PTHREAD_MUTEX_ERRORCHECK)` —
+    on glibc PTHREAD_MUTEX_ERRORCHECK is an enumerator, not a macro, so the NULL-attr branch is the
+    one compiled in every build (the error-checking branch is dead code here) -/
+def mutexInitType : Option Nat := none
+/-- thread.c `uv_mutex_init_recursive`: PTHREAD_MUTEX_RECURSIVE (1 on Linux) -/
+def rmutexInitType : Option Nat := some 1
+
 /-! ## stack size -/
 
 /-- environment read by the stack-size code -/
